@@ -198,8 +198,8 @@ def gen_helper_writes(rng: random.Random) -> dict:
 class C02(CheckBase):
     pid = "C02"
     level = "exploration"
-    quick_cases = 1600
-    thorough_cases = 24000
+    quick_cases = 3200
+    thorough_cases = 32000
 
     def cases(self, rng: random.Random, tier: str, idx: int) -> Iterable[dict]:
         if idx % 3 == 0:
